@@ -41,7 +41,8 @@ func Map[K comparable, V any](orig map[K]V) map[K]V {
 }
 
 func OrderedMap[K comparable, V any](orig *orderedmap.OrderedMap[K, V]) *orderedmap.OrderedMap[K, V] {
-	if orig.Len() == 0 {
+	// An empty YAML mapping may leave the map nil (for: {var: X, matrix: {}})
+	if orig == nil || orig.Len() == 0 {
 		return orderedmap.NewOrderedMap[K, V]()
 	}
 	c := orderedmap.NewOrderedMap[K, V]()
